@@ -7,7 +7,7 @@ for d in sorted(glob.glob(os.path.join(root, "C*-*"))):
     name = os.path.basename(d)
     meta = json.load(open(os.path.join(d, "meta.json"))) if os.path.exists(os.path.join(d, "meta.json")) else {}
     conf = json.load(open(os.path.join(d, "confirm.json"))) if os.path.exists(os.path.join(d, "confirm.json")) else {}
-    caught, silent, inconc = [], [], []
+    caught, silent, inconc, later = [], [], [], []
     for f in sorted(glob.glob(os.path.join(d, "result-*.json"))):
         tier = os.path.basename(f)[7:-5]
         for p, r in json.load(open(f)).items():
@@ -15,9 +15,11 @@ for d in sorted(glob.glob(os.path.join(root, "C*-*"))):
                 continue
             tag = p if tier == "quick" else f"{p}({tier})"
             (caught if r["exit"] == 1 else inconc if r["exit"] == 2 else silent).append(tag)
+            if r["exit"] == 1 and isinstance(r.get("earlier"), dict) and r["earlier"].get("exit") in (0, 2):
+                later.append(tag)
     caught = sorted(set(caught)); silent = sorted(set(silent) - set(caught))
     s = (meta.get("summary") or "").replace("|", "/").replace("\n", " ")
-    rows.append(f"| {name} | {s[:230]} | {'yes' if conf.get('confirmed') else 'NO' if conf else '?'} | {', '.join(caught) or '—'} | {', '.join(silent) or '—'}{(' ; inconclusive: ' + ', '.join(sorted(set(inconc)))) if inconc else ''} |")
+    rows.append(f"| {name} | {s[:230]} | {'yes' if conf.get('confirmed') else 'NO' if conf else '?'} | {', '.join(c + ('*' if c in later else '') for c in caught) or '—'} | {', '.join(silent) or '—'}{(' ; inconclusive: ' + ', '.join(sorted(set(inconc)))) if inconc else ''} |")
 print("| seeded change | what it does | confirmed (477 pass, demo fails/passes) | caught by | silent |")
 print("|---|---|---|---|---|")
 print("\n".join(rows))
